@@ -727,38 +727,57 @@ func checkC09(c *Ctx) {
 		fl := &ast.FuncLit{Type: fi.Decl.Type, Body: fi.Decl.Body}
 		c.itemErrFlow(sp, fl, item, "tree.Consensus/item.Err", "collections ... are rejected with an error")
 		sizeOK, nameOK := false, false
-		ast.Inspect(rs.Body, func(n ast.Node) bool {
-			is, ok := n.(*ast.IfStmt)
-			if !ok || len(is.Body.List) == 0 {
-				return true
+		// the loop body, and the unexported helpers of the package it calls (the check may be extracted)
+		type scanUnit struct {
+			body ast.Node
+			info *types.Info
+			o    *canonOpts
+		}
+		scanUnits := []scanUnit{{rs.Body, info, env.o}}
+		for _, call := range callsIn(rs.Body, true) {
+			g := calleeOf(info, call)
+			if g == nil || g.Exported() || g.Pkg() != fi.Obj.Pkg() {
+				continue
 			}
-			ret, ok := is.Body.List[len(is.Body.List)-1].(*ast.ReturnStmt)
-			if !ok || len(ret.Results) != 2 || isNilIdent(info, ret.Results[1]) {
-				return true
+			if gi := c.FuncOfObj(g); gi != nil && gi.Decl.Body != nil {
+				scanUnits = append(scanUnits, scanUnit{gi.Decl.Body, gi.Pkg.TypesInfo, nil})
 			}
-			k := c.canon(info, is.Cond, env.o)
-			if strings.Contains(k, "len(") && strings.Contains(k, "!=") {
-				sizeOK = true
-			}
-			if strings.HasPrefix(k, "!") {
-				// !ok with ok from ExistsTip
-				if id, ok := unparen(is.Cond).(*ast.UnaryExpr); ok {
-					if o := identObj(info, id.X); o != nil {
-						ast.Inspect(rs.Body, func(m ast.Node) bool {
-							if as, ok := m.(*ast.AssignStmt); ok && len(as.Rhs) == 1 && identObj(info, as.Lhs[0]) == o {
-								if cl, ok := unparen(as.Rhs[0]).(*ast.CallExpr); ok {
-									if g := calleeOf(info, cl); g != nil && isRepoFunc(g, "tree", "Tree", "ExistsTip") {
-										nameOK = true
+		}
+		for _, su := range scanUnits {
+			rsBody, info := su.body, su.info
+			ast.Inspect(rsBody, func(n ast.Node) bool {
+				is, ok := n.(*ast.IfStmt)
+				if !ok || len(is.Body.List) == 0 {
+					return true
+				}
+				ret, ok := is.Body.List[len(is.Body.List)-1].(*ast.ReturnStmt)
+				if !ok || len(ret.Results) == 0 || isNilIdent(info, ret.Results[len(ret.Results)-1]) {
+					return true
+				}
+				k := c.canon(info, is.Cond, su.o)
+				if strings.Contains(k, "len(") && strings.Contains(k, "!=") {
+					sizeOK = true
+				}
+				if strings.HasPrefix(k, "!") {
+					// !ok with ok from ExistsTip
+					if id, ok := unparen(is.Cond).(*ast.UnaryExpr); ok {
+						if o := identObj(info, id.X); o != nil {
+							ast.Inspect(rsBody, func(m ast.Node) bool {
+								if as, ok := m.(*ast.AssignStmt); ok && len(as.Rhs) == 1 && identObj(info, as.Lhs[0]) == o {
+									if cl, ok := unparen(as.Rhs[0]).(*ast.CallExpr); ok {
+										if g := calleeOf(info, cl); g != nil && isRepoFunc(g, "tree", "Tree", "ExistsTip") {
+											nameOK = true
+										}
 									}
 								}
-							}
-							return true
-						})
+								return true
+							})
+						}
 					}
 				}
-			}
-			return true
-		})
+				return true
+			})
+		}
 		c.Check(sizeOK && nameOK, "ERRFLOW", "tree.Consensus/taxa-mismatch", rs.Pos(), "different size or unknown name returns an error", fmt.Sprintf("taxon check of later trees incomplete (size compared and refused: %v, each name looked up and refused: %v)", sizeOK, nameOK)).Clause = "collections with differing taxa are rejected with an error"
 	}
 	c.Decides("FULL-LOOP: the loop of Consensus that adds the kept splits (and writes the mean length of tip branches, which come in the same list) visits every entry: no early exit once the tree is resolved")
